@@ -8,6 +8,7 @@ let suites : (string * (string -> string)) list = [
   ("print", Suite_print.run);
   ("gram", Suite_gram.run);
   ("writer", Suite_writer.run);
+  ("relex", Suite_relex.run);
 ]
 
 let () =
